@@ -231,8 +231,9 @@ func runC13(t *testing.T, ch *sim.Choices, tier string) (o Outcome) {
 	case debugger:
 		if be, isB := esc.(budgetExceeded); isB {
 			fail("interrupt-late", "debugger-not-entered", fmt.Sprintf("the debugger was not entered within %d statements (%d executed)", c13Budget, be.after))
-		} else if dbgStops == 0 && after > 0 {
-			// fewer than budget statements were left: acceptable only if it then completed normally
+		} else if dbgStops == 0 {
+			// fewer than budget statements were left (possibly none: the interrupt landed on the
+			// function's last statement): acceptable only if it then completed normally
 			if esc != nil || result != want {
 				fail("interrupt-wrong-outcome", "debugger-no-stop", "the debugger was never entered and the evaluation did not complete normally")
 			}
